@@ -183,6 +183,20 @@ class BndEval:
                 if a[0] and b[0]:
                     return True, a[1]
                 return False, (a[1] if not a[0] else b[1])
+            if re.search(r"Option::<T>::map_or$", res) and len(c["args"]) == 3:
+                # opt.map_or(default, |&(byte, _)| byte) with opt an element of a Vec collected from char_indices() of S
+                dflt = self.bnd(c["args"][1], S, depth + 1, seen)
+                if not dflt[0]:
+                    return False, dflt[1]
+                clos = [cid for cid, loc in c.get("clos", []) if loc and cid in self.crate.fns]
+                item = False
+                for d2 in f.whole_defs(op_local(c["args"][0])) if op_local(c["args"][0]) is not None else []:
+                    if d2[0] == "call" and re.search(r"<impl \[T\]>::get$|Vec::<T, A>::get$|::first$|::last$", d2[2].get("res") or "") and d2[2]["args"]:
+                        if self.vec_from_char_indices(op_local(d2[2]["args"][0]), S):
+                            item = True
+                if item and len(clos) == 1 and _closure_returns_field0(self.crate.fns[clos[0]]):
+                    return True, "byte offset of a char_indices() element of the same string (or %s)" % dflt[1]
+                return False, "result of map_or"
             if (c.get("fn") == "std::iter::Iterator::count") and "TakeWhile<std::str::Chars" in " ".join(c.get("targs", [])):
                 # number of leading chars satisfying an ASCII-only predicate == number of leading bytes
                 if self.chars_src(c["args"][0], S) and self.ascii_only_predicate(c):
@@ -489,6 +503,27 @@ class BndEval:
                     if sw and sw[1] in self.dom.get(self.site_bb, set()):
                         return True
         return False
+
+
+def _closure_returns_field0(cf):
+    """the closure's result is field 0 of its (tuple) parameter"""
+    def src_ok(op, depth=0):
+        p = op_place(op)
+        if p is None or depth > 4:
+            return False
+        fs = proj_fields(place_projs(p))
+        base = place_local(p)
+        if fs and fs[-1] == ("tuple", "0") and len(fs) == 1:
+            if base == 2:
+                return True
+            return all(d[0] == "assign" and d[3][0] in ("use", "ref") and
+                       place_local(op_place(d[3][1]) if d[3][0] == "use" else d[3][2]) == 2 for d in cf.whole_defs(base)) and bool(cf.whole_defs(base))
+        if not fs:
+            ds = cf.whole_defs(base)
+            return bool(ds) and all(d[0] == "assign" and d[3][0] == "use" and src_ok(d[3][1], depth + 1) for d in ds)
+        return False
+    rets = [rv for _bb, _si, pl, rv, _sp in cf.assigns() if place_local(pl) == 0]
+    return bool(rets) and all(rv[0] == "use" and src_ok(rv[1]) for rv in rets) and not any(place_local(c["dest"]) == 0 for _b, c in cf.calls())
 
 
 def slicing_sites(crate):
